@@ -411,6 +411,9 @@ func (w *saoWorld) renew(mut string) {
 	}
 	p := saotypes.RenewProposal{Owner: o.did, Duration: dur, Timeout: 10, Data: data}
 	jws := SignJWS(&p, o.key, o.kid)
+	if mut == "forged-owner" {
+		jws = SignJWS(&p, w.sponsor.key, w.sponsor.kid)
+	}
 	signer, provider := gw, gw.Bech()
 	if tx, ok := w.gwTx[gw.Bech()]; ok && rng.Intn(3) == 0 {
 		signer = tx
@@ -447,6 +450,9 @@ func (w *saoWorld) terminate(mut string) {
 	gw := w.gateways[rng.Intn(len(w.gateways))]
 	p := saotypes.TerminateProposal{Owner: o.did, DataId: dataId}
 	jws := SignJWS(&p, o.key, o.kid)
+	if mut == "forged-owner" {
+		jws = SignJWS(&p, w.sponsor.key, w.sponsor.kid)
+	}
 	if mut == "tampered" {
 		p.DataId = w.models[rng.Intn(len(w.models))]
 	}
@@ -484,6 +490,11 @@ func (w *saoWorld) permission(mut string) {
 		p.ReadwriteDids = []string{"did:key:unknown"}
 	}
 	jws := SignJWS(&p, o.key, o.kid)
+	if mut == "forged-owner" {
+		// the proposal names the real owner; header and signature are the sponsor's (an unrelated did:key), who grants himself access
+		p.ReadwriteDids = []string{w.sponsor.did}
+		jws = SignJWS(&p, w.sponsor.key, w.sponsor.kid)
+	}
 	res := w.r.UpdatePermission(gw, &saotypes.MsgUpdataPermission{Creator: gw.Bech(), Proposal: p, JwsSignature: jws, Provider: gw.Bech()})
 	if res.Class == "ok" {
 		w.grants[dataId] = grantee
@@ -557,8 +568,20 @@ func (w *saoWorld) faults(mut string) {
 	rng := w.rng
 	var cands []ordertypes.Shard
 	for _, sh := range w.ctxShards() {
-		if sh.Status == ordertypes.ShardCompleted {
+		if sh.Status == ordertypes.ShardCompleted || (mut == "not-held" && sh.Sp != "") {
 			cands = append(cands, sh)
+		}
+	}
+	if mut == "not-held" {
+		// a report about a shard the accused was only assigned, has timed out on, or is still migrating to
+		var nh []ordertypes.Shard
+		for _, sh := range cands {
+			if sh.Status != ordertypes.ShardCompleted {
+				nh = append(nh, sh)
+			}
+		}
+		if len(nh) > 0 {
+			cands = nh
 		}
 	}
 	if len(cands) == 0 {
@@ -585,6 +608,10 @@ func (w *saoWorld) faults(mut string) {
 	sh := cands[rng.Intn(len(cands))]
 	ord, found := w.c.App.OrderKeeper.GetOrder(w.c.deliverCtx(), sh.OrderId)
 	if !found {
+		return
+	}
+	if mut == "not-held" && rng.Intn(2) == 0 {
+		w.r.ReportFaults(w.providers[0], sh.Sp, []*saotypes.Fault{{DataId: ord.DataId, OrderId: ord.Id, ShardId: sh.Id, CommitId: "lost", Provider: sh.Sp, Reporter: w.providers[0].Bech()}})
 		return
 	}
 	fishman := w.providers[0]
@@ -691,11 +718,11 @@ func runSaoHistory(r *Recorder, rng *rand.Rand, accts []*Account, nOps int, long
 			case x < 55:
 				w.update(weighted(rng, []string{"stale-base", "prefix-base", "empty-base", "embed-dataid", "stranger", "grantee", "readonly"}, 30))
 			case x < 63:
-				w.renew(weighted(rng, []string{"stranger", "too-long", "short", "attacker-relay", "grantee", "grantee"}, 30))
+				w.renew(weighted(rng, []string{"stranger", "too-long", "short", "attacker-relay", "grantee", "grantee", "forged-owner"}, 30))
 			case x < 68:
-				w.terminate(weighted(rng, []string{"stranger", "tampered", "grantee", "readonly", "unknown-relay"}, 30))
+				w.terminate(weighted(rng, []string{"stranger", "tampered", "grantee", "readonly", "unknown-relay", "forged-owner"}, 30))
 			case x < 75:
-				w.permission(weighted(rng, []string{"stranger", "bad-did"}, 25))
+				w.permission(weighted(rng, []string{"stranger", "bad-did", "forged-owner", "forged-owner"}, 35))
 			case x < 80:
 				w.cancel(weighted(rng, []string{"attacker-own-node", "attacker-names-gateway", "other-gateway"}, 30))
 			case x < 85:
@@ -703,7 +730,7 @@ func runSaoHistory(r *Recorder, rng *rand.Rand, accts []*Account, nOps int, long
 			case x < 90:
 				w.migrate(weighted(rng, []string{"impersonate"}, 15))
 			case x < 95:
-				w.faults(weighted(rng, []string{"ordinary-node", "non-node", "wrong-order", "wrong-data", "wrong-shard", "wrong-provider", "recover-others", "recover-others"}, 45))
+				w.faults(weighted(rng, []string{"ordinary-node", "non-node", "wrong-order", "wrong-data", "wrong-shard", "wrong-provider", "recover-others", "recover-others", "not-held", "not-held"}, 50))
 			case x < 97:
 				// claims: prefer a provider with a recorded collateral debt (the claim then nets the debt out), and let it claim again in the next blocks
 				p := w.providers[rng.Intn(len(w.providers))]
